@@ -15,6 +15,7 @@ tree, every request, every continuation — no size bound.
 -/
 import CaddyModel.C05.Lemmas
 import CaddyModel.C05.Witness
+import CaddyModel.C05.AdaptProps
 
 namespace CaddyModel.C05
 
